@@ -35,11 +35,15 @@ R.contract("PeerConnection.reset_last_read", params={"self": "PeerConnection"},
            ensures=[("stamp", "self._last_read >= int(old(clock()))")], modifies=["self._last_read"], props=["C05", "C11"])
 R.contract("PeerConnection.reset_last_message", params={"self": "PeerConnection"},
            modifies=["self._last_msg"], props=["C05"])
+R.model("PeerConnection", fields={"g_attn": "int"})
 R.contract("PeerConnection.demand_attention", trusted=True, params={"self": "PeerConnection"},
-           raises=[], note="os.write to the node's interrupt pipe: assumed not to raise while the node lives")
+           raises=[], ghost_modifies=["self.g_attn"], ghost_ensures=["self.g_attn == old(self.g_attn) + 1"],
+           note="os.write to the node's interrupt pipe: assumed not to raise while the node lives; g_attn counts the signals")
 R.contract("PeerConnection.close", params={"self": "PeerConnection", "signal_node": "bool"},
            ensures=[("closed", f"self.state == {CLOSED}"),
-                    ("workers-stopped", "self._read_thread.stopped and self._write_thread.stopped")],
+                    ("workers-stopped", "self._read_thread.stopped and self._write_thread.stopped"),
+                    ("node-signalled-iff-asked", "self.g_attn == old(self.g_attn) + ite(signal_node, 1, 0)")],
+           ghost_modifies=["self.g_attn"],
            modifies=["self.state", "self._read_thread.stopped", "self._write_thread.stopped"],
            props=["C05", "C19"])
 
@@ -62,7 +66,7 @@ R.contract("PeerConnection.work_read_queue", params={"self": "PeerConnection", "
            requires=[("starts-empty", "rb(self) == b''")],
            raises=[], modifies=["self._read_buffer", "self._last_read", "self._last_msg", "self.state",
                                 "self._read_thread.stopped", "self._write_thread.stopped"] + _HANDLER_MODS,
-           ghost_modifies=["self.g_dlog", "self._read_buffer_queue.g_n"],
+           ghost_modifies=["self.g_dlog", "self._read_buffer_queue.g_n", "self.g_attn"],
            props=["C05", "C14", "C07", "C11"],
            note="thread target: raises nothing; the framing obligations are the loop clauses below")
 R.macro("stuck", ["b"], "len(b) < 20 or hlen(b) > len(b)")
@@ -72,7 +76,7 @@ R.loop("PeerConnection.work_read_queue", 0,
        step=[("every-received-chunk-restarts-the-idle-timer",
               "implies(self._read_buffer_queue.g_n > prev(self._read_buffer_queue.g_n), "
               "self._last_read >= int(prev(clock())))")],
-       modifies=["self._read_buffer", "self._last_read", "self._last_msg", "self.g_dlog", "self._read_buffer_queue.g_n"] + _HANDLER_MODS)
+       modifies=["self._read_buffer", "self._last_read", "self._last_msg", "self.g_dlog", "self._read_buffer_queue.g_n", "self.g_attn"] + _HANDLER_MODS)
 R.loop("PeerConnection.work_read_queue", 1,
        invariants=[("waiting-only-when-stuck", "implies(resume_waiting, stuck(rb(self)))")],
        local_kinds={"message": "Opt[Message]", "msg_header": "Opt[MessageHeader]"},
@@ -90,4 +94,4 @@ R.loop("PeerConnection.work_read_queue", 1,
                                         "items(self.g_dlog)[len(self.g_dlog) - 1].g_src == "
                                         "prev(rb(self))[:hlen(prev(rb(self)))] and "
                                         "20 <= hlen(prev(rb(self))) <= len(prev(rb(self))))")],
-       modifies=["self._read_buffer", "self._last_msg", "self.g_dlog"] + _HANDLER_MODS)
+       modifies=["self._read_buffer", "self._last_msg", "self.g_dlog", "self.g_attn"] + _HANDLER_MODS)
